@@ -130,6 +130,39 @@ def _as_quantifier(body):
     return [ret]
 
 
+def _tree_to_expr(stmts):
+    """boolean expression with the truth value of a pure decision tree (only `if` and `return <expr>`); None if it is not one.
+    Only valid where the truth value alone matters (test positions)."""
+    if not stmts:
+        return ast.Constant(value=False)        # falls off the end: None
+    st, rest = stmts[0], stmts[1:]
+    if isinstance(st, ast.Return):
+        return st.value if st.value is not None else ast.Constant(value=False)
+    if isinstance(st, ast.Pass):
+        return _tree_to_expr(rest)
+    if isinstance(st, ast.If):
+        a = _tree_to_expr(list(st.body) + rest)
+        b = _tree_to_expr(list(st.orelse) + rest)
+        if a is None or b is None:
+            return None
+        c = st.test
+
+        def const(e):
+            return e.value if isinstance(e, ast.Constant) and (isinstance(e.value, bool) or e.value is None) else 'x'
+        ca, cb = const(a), const(b)
+        if ca != 'x' and cb != 'x':
+            if bool(ca) == bool(cb):
+                return None                      # both branches constant and equal: the test is evaluated for its effect only
+            return c if ca else _negate(c)
+        if ca != 'x':
+            return ast.BoolOp(op=ast.Or(), values=[c, b]) if ca else ast.BoolOp(op=ast.And(), values=[_negate(c), b])
+        if cb != 'x':
+            return ast.BoolOp(op=ast.Or(), values=[_negate(c), a]) if cb else ast.BoolOp(op=ast.And(), values=[c, a])
+        return ast.BoolOp(op=ast.Or(), values=[ast.BoolOp(op=ast.And(), values=[c, a]),
+                                               ast.BoolOp(op=ast.And(), values=[_negate(_copy_tree(c)), b])])
+    return None
+
+
 class _Callee:
     def __init__(self, rel, qual, node, cls):
         self.rel, self.qual, self.node, self.cls = rel, qual, node, cls
@@ -190,6 +223,16 @@ class _Callee:
             elif isinstance(n, ast.Lambda):
                 self.scoped |= {x.arg for x in n.args.args + n.args.kwonlyargs}
         self.pure_expr = len(body) == 1 and isinstance(body[0], ast.Return) and body[0].value is not None
+        # pure decision tree: usable as an expression where only the truth value counts (the duplicated test of the general
+        # if/else form must be free of calls: it would be evaluated twice)
+        self.truth_expr = None
+        if not self.pure_expr and not self.stores:
+            t = _tree_to_expr(list(body))
+            if t is not None:
+                dup = [n for n in ast.walk(t) if isinstance(n, ast.BoolOp) and isinstance(n.op, ast.Or) and len(n.values) == 2 and
+                       all(isinstance(v, ast.BoolOp) and isinstance(v.op, ast.And) for v in n.values)]
+                if not any(isinstance(x, ast.Call) for d in dup for x in ast.walk(d.values[0].values[0])):
+                    self.truth_expr = t
 
     @staticmethod
     def _comp_bound(wrap, name):
@@ -454,7 +497,7 @@ class Inliner:
         """first call of an inlinable function in the statement's own expressions -> (call, conditional position?)"""
         found = []
 
-        def rec(e, cond):
+        def rec(e, cond, truth=False):
             if isinstance(e, ast.Call):
                 rec(e.func, cond)
                 for a in e.args:
@@ -463,12 +506,16 @@ class Inliner:
                     rec(k.value, cond)
                 nm = self.call_name(e)
                 if nm in self.callees and not getattr(e, '_no_inline', False) and self.refers(e):
+                    e._truth_ctx = truth
                     found.append((e, cond))
                 return
             if isinstance(e, ast.BoolOp):
-                rec(e.values[0], cond)
+                rec(e.values[0], cond, truth)
                 for v in e.values[1:]:
-                    rec(v, True)
+                    rec(v, True, truth)
+                return
+            if isinstance(e, ast.UnaryOp) and isinstance(e.op, ast.Not):
+                rec(e.operand, cond, truth)
                 return
             if isinstance(e, ast.IfExp):
                 rec(e.test, cond)
@@ -485,11 +532,12 @@ class Inliner:
                 elif isinstance(c, (ast.keyword, ast.comprehension)):
                     for cc in ast.iter_child_nodes(c):
                         rec(cc, cond)
+        is_test = isinstance(st, (ast.If, ast.While, ast.Assert))
         for h in self.header_exprs(st):
             if isinstance(h, tuple):
-                rec(h[1], True)
+                rec(h[1], True, is_test)
             else:
-                rec(h, False)
+                rec(h, False, is_test)
         return found[0] if found else (None, None)
 
     def refers(self, call):
@@ -564,6 +612,19 @@ class Inliner:
                     not any(_names(binding[p]) & callee.scoped for p in callee.params) and not (set(callee.params) & callee.scoped):
                 e = _Subst(binding, {}, callee.kwarg, callee.extra_keywords).visit(_copy_tree(callee.body[0].value))
                 e = ast.copy_location(e, call)
+                self.replace_expr(st, call, e)
+                return ('hoist', [])
+        if callee.truth_expr is not None and getattr(call, '_truth_ctx', False):
+            binding = callee.bind(call)
+            uses = {}
+            for n in ast.walk(callee.truth_expr):
+                if isinstance(n, ast.Name):
+                    uses[n.id] = uses.get(n.id, 0) + 1
+            if all(_is_simple(binding[p]) or _no_call(binding[p]) or uses.get(p, 0) <= 1 for p in callee.params) and \
+                    not any(_names(binding[p]) & callee.scoped for p in callee.params) and not (set(callee.params) & callee.scoped):
+                e = _Subst(binding, {}, callee.kwarg, callee.extra_keywords).visit(_copy_tree(callee.truth_expr))
+                e = ast.copy_location(e, call)
+                ast.fix_missing_locations(e)
                 self.replace_expr(st, call, e)
                 return ('hoist', [])
         if cond:
